@@ -242,6 +242,12 @@ class MatrixDFTExecutor:
         if not isinstance(shift, Iterable):
             shift = (shift, shift)
 
+        # python numbers, as for Q: a numpy scalar shift is subtracted from the
+        # coordinate vectors in its own precision, and hashes equal to the python number
+        shift = tuple(float(s) for s in shift)
+        samples_in = tuple(int(s) for s in samples_in)
+        samples_out = tuple(int(s) for s in samples_out)
+
         # the bases are built in the configured precision, so it is part of their identity
         return (Q, samples_in, samples_out, shift, fwd, config.precision)
 
@@ -459,6 +465,12 @@ class ChirpZTransformExecutor:
 
         if not isinstance(shift, Iterable):
             shift = (shift, shift)
+
+        # python numbers, as for Q below: a numpy scalar (or array element) shift
+        # or sample count changes the precision the chirp arithmetic is done in,
+        # and it shares its cache entry with the equal python number
+        shift = tuple(float(s) for s in shift)
+        samples_out = tuple(int(s) for s in samples_out)
 
         if not isinstance(Q, Iterable):
             Q = (Q, Q)
